@@ -2,6 +2,8 @@ import ColoVerif.Model.LegacyTransp1d
 import ColoVerif.Proofs.Transp1dCert
 import ColoVerif.Proofs.Transp1dKept
 import ColoVerif.Proofs.Transp1dBalanced
+import ColoVerif.Proofs.Transp1dOptMain
+import ColoVerif.Proofs.Transp1dOptLocal
 /-!
 # C14 — one-dimensional transportation is optimal and its rounding is memory-safe
 
@@ -133,25 +135,98 @@ example : InDomain ⟨[7, 0, 2], [1, 9, 4], [3, 0, 2], [2, 2, 1]⟩ ∧
     solve ⟨[7, 0, 2], [1, 9, 4], [3, 0, 2], [2, 2, 1]⟩ = .ok [(2, 0, 2), (0, 2, 1), (0, 1, 2)] :=
   ⟨(checkOk_iff _).mp (by decide), by decide, by decide⟩
 
-/-- The universal optimality statement of C14 (proved under exact balance: `t1d_optimal_balanced`;
-with slack only per instance: `t1d_optimal_partial`). -/
-def t1d_optimal_full_statement : Prop :=
-  ∀ (pb : Problem), InDomain pb → ∃ plan, solve pb = .ok plan ∧ validPlan pb plan = true ∧
-    ∀ plan', validPlan pb plan' = true → planCost pb plan ≤ planCost pb plan'
-
-/-- PARTIAL (per-instance certificate route, needed only when total demand exceeds total supply).
-For every input of the domain `solve` returns a valid plan, and whenever that plan passes `certOk`
-for some potentials it has minimum cost among all valid plans.  The driver computes potentials
-(untrusted Bellman–Ford) and evaluates this very `certOk` on the model's plan on every `cert` op
-(`cert ok`); the harness compares the real plan's cost with an independent exact optimum.
-Missing for `t1d_optimal_full_statement`: that such potentials exist for every input *with slack*
-(i.e. the correctness of the event sweep as an optimiser of the positions). -/
-theorem t1d_optimal_partial (pb : Problem) (h : InDomain pb) :
+/-- FULL — the optimality clause of C14.  For every input of the domain (slack or exact balance,
+unsorted and duplicate positions, zero supplies and demands) `solve` never errors and returns a
+valid plan of minimum total distance cost among all valid plans.
+Proof (`Proofs/Transp1dOpt*.lean`), for total supply < total demand: (1) loop invariants of the
+slope-events sweep — the event queue encodes the marginal cost of pushing the last run of touching
+sources to the left (`LoopInv.iev`), that cost is non-negative and non-increasing in the position,
+every decision `pushToNewSink`/`pushToLastSink` keeps the marginal costs of pushing any suffix of the
+run to the right non-negative; (2) hence the flushed positions satisfy the optimality conditions
+`Kkt` of the position problem (`t1d_positions_kkt`); (3) `Kkt` yields sink prices that form a dual
+certificate on the sorted instance (Monge property and quasi-convexity of `|u i - v j|`,
+`t1d_kkt_dual`); (4) the certificate is carried back through the sorter's renaming to `certOk` on
+the original problem (potential on the line `ψ x = min_j (be j + |x - v j|)`), and weak duality
+(`cert_optimal_1d`) concludes.  Exact balance is `t1d_optimal_balanced`. -/
+theorem t1d_optimal (pb : Problem) (h : InDomain pb) :
     ∃ plan, solve pb = .ok plan ∧ validPlan pb plan = true ∧
-      ∀ al be, certOk pb plan al be = true →
-        ∀ plan', validPlan pb plan' = true → planCost pb plan ≤ planCost pb plan' := by
-  obtain ⟨plan, e, hv⟩ := t1d_valid pb h
-  exact ⟨plan, e, hv, fun al be hc plan' hv' => cert_optimal_core pb plan plan' al be hc hv'⟩
+      ∀ plan', validPlan pb plan' = true → planCost pb plan ≤ planCost pb plan' :=
+  solve_optimal pb ((checkOk_iff pb).mpr h)
+
+/-- non-vacuity: an instance with slack, unsorted positions, a zero supply and a zero demand -/
+example : InDomain ⟨[5, 0, 3], [4, 9, 1], [2, 0, 1], [2, 0, 3]⟩ ∧
+    solve ⟨[5, 0, 3], [4, 9, 1], [2, 0, 1], [2, 0, 3]⟩ = .ok [(2, 2, 1), (0, 0, 2)] :=
+  ⟨(checkOk_iff _).mp (by decide), by decide⟩
+
+/-- FULL.  The dual certificate exists for every input of the domain: the plan returned by `solve`
+passes the decidable check `certOk` for suitable potentials. -/
+theorem t1d_cert_exists (pb : Problem) (h : InDomain pb) :
+    ∃ plan al be, solve pb = .ok plan ∧ certOk pb plan al be = true :=
+  solve_cert pb ((checkOk_iff pb).mpr h)
+
+/-- FULL (soundness of the per-instance check of the driver's `loc` op).  If the positions returned
+by the sweep on the instance handed to the solver pass the decidable interval certificate
+`ivCertOk` for some sink prices, the plan returned by `solve` has minimum cost.  (Redundant with
+`t1d_optimal`; the driver evaluates `ivCertOk` with closed-formula prices on every case, which ties
+the executed model to steps 2-4 of the proof instance by instance.) -/
+theorem t1d_local_cert_sound (pb : Problem) (h : InDomain pb)
+    (hloc : ∀ p, run (sortedSolver pb) = .ok p → ∃ be, ivCertOk (sortedSolver pb) p be = true) :
+    ∃ plan, solve pb = .ok plan ∧ validPlan pb plan = true ∧
+      ∀ plan', validPlan pb plan' = true → planCost pb plan ≤ planCost pb plan' := by
+  have hv := (checkOk_iff pb).mpr h
+  refine solve_optimal_of_glob pb hv (fun p e => ?_)
+  obtain ⟨be, hb⟩ := hloc p e
+  exact ⟨_, ivCert_glob (sortedSolver pb) p (sortedSolver_dom pb hv).Dmono _
+    ((ivCertOk_iff (sortedSolver pb) p be).mp hb)⟩
+
+/-- non-vacuity: positions and prices of u=[5,0,3], v=[4,9,1], s=[2,0,1], d=[2,0,3] -/
+example : run (sortedSolver ⟨[5, 0, 3], [4, 9, 1], [2, 0, 1], [2, 0, 3]⟩) = .ok [2, 2] ∧
+    ivCertOk (sortedSolver ⟨[5, 0, 3], [4, 9, 1], [2, 0, 1], [2, 0, 3]⟩) [2, 2] [0, 1] = true := by decide
+
+/-- FULL (step 2 of `t1d_optimal`).  With total supply < total demand, the positions returned by the
+sweep + `flushPositions` on the instance handed to the solver satisfy the optimality conditions of
+the position problem: for every run of touching sources, pushing any prefix of it to the left or
+any suffix of it to the right does not decrease the cost (whenever there is room), and the first /
+last source of a run does not prefer an earlier / later sink. -/
+theorem t1d_positions_kkt (pb : Problem) (h : InDomain pb) (hsl : pb.s.sum < pb.d.sum) (p : List Int)
+    (e : run (sortedSolver pb) = .ok p) : Kkt (sortedSolver pb) p := by
+  have hv := (checkOk_iff pb).mpr h
+  have sd := sortedSolver_swDom pb hv
+  have hslack := sortedSolver_strict_slack pb hv hsl
+  have hm : 0 < (sortedSolver pb).v.length := by
+    by_cases h0 : (sortedSolver pb).v.length = 0
+    · have hD0 : (sortedSolver pb).D.getD 0 0 = 0 := by rw [sd.si.eD]; exact prefixFrom_zero 0 _
+      have hS0 : (sortedSolver pb).S.getD 0 0 = 0 := by rw [sd.si.eS]; exact prefixFrom_zero 0 _
+      have := sd.dom.Smono 0 (sortedSolver pb).u.length (Nat.zero_le _) (Nat.le_refl _)
+      rw [h0] at hslack
+      omega
+    · omega
+  exact (run_kkt (sortedSolver pb) sd hm hslack p e).2
+
+/-- FULL (step 3 of `t1d_optimal`).  On a sorted zero-free instance with strict slack, positions
+that satisfy `Kkt` admit sink prices `be ≥ 0` — zero on every sink that is not completely covered —
+for which every source is, prices included, cheapest in each sink it overlaps. -/
+theorem t1d_kkt_dual (sv : Solver) (q : List Int) (dom : PosDom sv q) (kkt : Kkt sv q) :
+    ∃ be : Nat → Int, GlobCert sv q be :=
+  kkt_glob sv q dom kkt
+
+/-- non-vacuity: one source of size 1 at the left wall, one sink of size 2 -/
+example : PosDom (mkSolver [0] [0] [1] [2]) [0] ∧ Kkt (mkSolver [0] [0] [1] [2]) [0] := kkt_example
+
+/-- FULL (one iteration of the `while` loop of `push`).  The loop invariant of the sweep — among
+others: the cumulated slope of the events at positions `≥ x` equals the marginal cost of pushing
+the current run of touching sources to the left at `x` — is preserved by `pushOnce`. -/
+theorem t1d_pushOnce_invariant (sv : Solver) (sd : SwDom sv) (i : Nat) (st st' : St)
+    (inv : LoopInv sv i st) (hc : Overflow sv i st) (e : pushOnce sv i st = .ok st') :
+    LoopInv sv i st' :=
+  pushOnce_loopInv sv sd i st st' inv hc e
+
+/-- non-vacuity of the sweep invariants: they hold in the initial state of every instance of the
+domain that has a sink -/
+example (pb : Problem) (h : InDomain pb) (hm : 0 < (sortedSolver pb).v.length) :
+    SwDom (sortedSolver pb) ∧ SweepInv (sortedSolver pb) St.init :=
+  ⟨sortedSolver_swDom pb ((checkOk_iff pb).mpr h),
+    sweepInv_init _ hm (sortedSolver_swDom pb ((checkOk_iff pb).mpr h))⟩
 
 /-! ## rounding -/
 
